@@ -41,6 +41,7 @@ def main(argv):
     from vlib.ctx import Ctx
     deadline = time.time() + budget if budget else None
     ctx = Ctx(prop, tier, seed, shard, nshards, deadline=deadline)
+    ctx.out_path = out
     # hard watchdog: dump stacks and die (driver reports inconclusive)
     hard = float(os.environ.get('VERIF_HARD_TIMEOUT', '0') or 0)
     # memory cap per worker: a runaway generator or student program must not take the machine down
